@@ -106,6 +106,19 @@ def check_mol(smi):
         if total_h(out) != want_h:
             fails.append(Fail("smiles_roundtrip_h", f"{s} -> {out}: {total_h(out)} H", f"{want_h} H", key_extra=f"root{r}"))
             break
+        # conversions hand out independent objects: edit the returned graph, convert the same string again
+        ref_view = graph_view(g)
+        gm = smiles_to_graph(s)
+        for v in list(gm.nodes):
+            gm.nodes[v]["charge"] = 7
+            gm.nodes[v]["hcount"] = 0
+        if gm.number_of_nodes() > 1:
+            gm.remove_node(max(gm.nodes))
+        g_again = smiles_to_graph(s)
+        n += 2
+        if graph_view(g_again) != ref_view or graph_view(g) != ref_view:
+            fails.append(Fail("conversion_result_shared", f"{s}: after editing a returned graph, converting the same SMILES again gives {graph_view(g_again)}", f"{ref_view}", key_extra=f"root{r}"))
+            break
         ge = h_to_explicit(g)
         gi = h_to_implicit(ge)
         n += 2
